@@ -87,13 +87,35 @@ func CheckReduceSaturated(file string, m *big.Int) ([]Obligation, error) {
 		return o.list, nil
 	}
 	in := r.in
-	dst, src := r.arrayParam(0), r.inputArray(1)
+	// accepted shapes: (dst, src *[4]uint64) uint64; in place (l *[4]uint64) uint64; by value (src *[4]uint64) ([4]uint64, uint64)
+	var arrays []int
+	for i, nm := range r.order {
+		if len(r.inputs[nm]) == 4 {
+			arrays = append(arrays, i)
+		}
+	}
+	var dst, src []*Val
 	var flag *Val
-	if len(r.ret) == 1 {
-		flag, _ = r.ret[0].(*Val)
+	for _, rv := range r.ret {
+		switch x := rv.(type) {
+		case *Val:
+			flag = x
+		case *arrayVal:
+			if len(x.elems) == 4 {
+				dst = x.elems
+			}
+		}
+	}
+	switch {
+	case len(arrays) == 2 && dst == nil:
+		dst, src = r.arrayParam(arrays[0]), r.inputArray(arrays[1])
+	case len(arrays) == 1 && dst == nil:
+		dst, src = r.arrayParam(arrays[0]), r.inputArray(arrays[0])
+	case len(arrays) == 1:
+		src = r.inputArray(arrays[0])
 	}
 	if len(dst) != 4 || len(src) != 4 || flag == nil {
-		o.add("reduce-flag", "", stUndecided, "", "unexpected signature: want func(dst, src *[4]uint64) uint64")
+		o.add("reduce-flag", "", stUndecided, "", "unexpected signature: want the limbs in (a *[4]uint64 parameter), the reduced limbs out (through a pointer parameter or as a result) and a uint64 flag result")
 		o.conclude(post)
 		return o.list, nil
 	}
@@ -589,6 +611,37 @@ func CheckHelpers(helpersFile string) ([]Obligation, error) {
 		out = append(out, o.list...)
 	}
 	return out, nil
+}
+
+// CheckUint64ToUint1 verifies the hand-written control-word normaliser of a fiat package (voi.go): for EVERY 64-bit
+// control word the result is [u != 0], the condition the callers' documented contract ("ctrl == 0 -> a, otherwise
+// b") and the specification used by the upper layers rely on.
+func CheckUint64ToUint1(voiFile string) ([]Obligation, error) {
+	ld, fi, err := loadFunc(voiFile, "Uint64ToUint1")
+	if err != nil {
+		return nil, err
+	}
+	o := &obs{scope: filepath.Base(filepath.Dir(voiFile)) + "/" + filepath.Base(voiFile), fn: "Uint64ToUint1", fnPos: ld.posOf(fi.decl)}
+	r := runFunc(ld, fi)
+	post := "result = [u != 0] for every 64-bit u"
+	if !o.sideConditions(r) {
+		o.conclude(post)
+		return o.list, nil
+	}
+	var res *Val
+	if len(r.ret) >= 1 {
+		res, _ = r.ret[0].(*Val)
+	}
+	u := r.scalarParam(0)
+	if res == nil || u == nil {
+		o.add("flag", "", stUndecided, "", "unexpected signature")
+	} else if z := nzAtom(r.in, res.p); z == nil || z.nzOf != u {
+		o.add("flag", "", stViolated, where(res), "result is not [u != 0] (the borrow of 0 - u): "+res.p.format(r.in.atomName, 4))
+	} else {
+		o.ok("flag", "", "result is the borrow of 0 - u = [u != 0]")
+	}
+	o.conclude(post)
+	return o.list, nil
 }
 
 func nzAtom(in *interp, p Poly) *atom {
